@@ -309,9 +309,9 @@ TrExit ==
   /\ Note( If(Ev.sig # 0, V("C18", [signal |-> Ev.sig, site |-> Ev.site])) \cup
            If(Ev.san, V("C18", [sanitizer |-> Ev.site])) \cup
            If(Ev.to /\ ~Ev.pending, V("C18", [m |-> "script without pending check-sat did not terminate"])) \cup
-           If(~Ev.to /\ Ev.sig = 0 /\ errs > 0 /\ Ev.status = 0,
+           If(~Ev.to /\ Ev.sig = 0 /\ ~Ev.san /\ errs > 0 /\ Ev.status = 0,
               V("C18", [m |-> "a command was rejected but the exit status is 0"])) \cup
-           If(~Ev.to /\ Ev.sig = 0 /\ errs = 0 /\ Ev.nerr = 0 /\ Ev.status # 0,
+           If(~Ev.to /\ Ev.sig = 0 /\ ~Ev.san /\ errs = 0 /\ Ev.nerr = 0 /\ Ev.status # 0,
               V("C18", [m |-> "no diagnostic but non-zero exit status"])) \cup
            If(~Ev.to /\ Ev.sig = 0 /\ Ev.synerr /\ Ev.status = 0,
               V("C18", [m |-> "syntax error but the exit status is 0"])) \cup
